@@ -11,7 +11,11 @@ the fill, the offset range check and the `pad_const` check of `resize_array`, an
 from `discr_ops.py`.
 Theorems about `resize1d`/`resizeCore` are ONE-AXIS statements; the n-axes statements are
 `forward_nd_eq_reference`, `axis_order_irrelevant`, `adjoint_transpose_nd`, `weighted_adjoint_nd`,
-`nd_axes_accept_iff`, `nd_accepts_iff`.  The operator theorems are per axis of the partition.
+`nd_axes_accept_iff`, `nd_accepts_iff` and (round 4) `overlap_copied_nd`, `crop_extend_id_nd`,
+`inverse_left_inverse`, `inverse_right_inverse`, `derivative_is_linear_part`,
+`adjoint_call_transpose` (operator level: `Model/ResizeOperator.lean`).  The operator theorems
+about partitions (`range_*`, `offset_from_spaces_*`, `inverse_offset_same`, `offset_tol_*`) are
+per axis of the partition.
 All sizes, offsets and array contents are universally quantified; scalars range over an
 arbitrary commutative ring (ℤ, ℚ, ℝ, ℂ, ℤ/256, …) resp. field.
 -/
